@@ -388,6 +388,12 @@ REGEX = {
     "regex-short-attempts-split-each": "'a'.repeat(3000000).split(/a/).length",
     "regex-short-attempts-lookahead": "'ab'.repeat(2000000).replace(/(?=b)c/g, '').length",
     "regex-short-attempts-sticky-global": "'a'.repeat(3000000).replace(/a/gy, 'b').length",
+    # nested code whose cost is in the front end (parser, compiler): it is part of the evaluation as well
+    "regex-none.parse-nested-parens": "eval('('.repeat(4000) + '1' + ')'.repeat(4000))",
+    "regex-none.parse-unclosed-parens": "try { eval('('.repeat(4000) + '1') } catch (e) { 1 }",
+    "regex-none.parse-nested-parens-Function": "new Function('return ' + '('.repeat(4000) + '1' + ')'.repeat(4000))()",
+    "regex-none.parse-long-sum": "eval('1' + '+1'.repeat(200))",
+    "regex-none.parse-many-statements": "eval('var q = 1;'.repeat(3000))",
 }
 
 
